@@ -92,9 +92,11 @@ CLAIMS = {
              "free) one real MultiState::insert at End / Index(p) / IndexFromBack(p) / After(anchor) / Before(anchor) (p in 0..=3, every live anchor) puts the "
              "new bar at the documented position counted among the LIVE bars, keeps the relative order of the others, recycles the most recently freed slot "
              "or allocates a fresh one, and preserves the invariant; remove_idx of any slot takes a live slot out of the order and resets it, removing a free "
-             "slot changes nothing. Being an inductive step, index reuse after removals is covered for histories of any length within the 2-slot bound.",
-        note="Partial: the CONTENT of the painted frame (every member once, in order, below the log; zombie reaping; alignment) needs MultiState::draw end to end, "
-             "which CBMC does not finish (tier `deep`); live-bar count and position argument are concrete per harness instance (Vec::insert at a symbolic index "
+             "slot changes nothing; mark_zombie from any state of 3 members reaps exactly the head bar (its wrapped rows move from last_line_count to "
+             "zombie_lines_count) and only flags any other. Being inductive steps, index reuse after removals is covered for histories of any length within the bound.",
+        note="Partial: the CONTENT of the painted frame (every member once, in order, below the log; zombie reaping; alignment) needs MultiState::draw end to end: "
+             "CBMC finishes it only for ONE member (quick: a head zombie is painted a last time, reaped, its row kept with Keep(1); thorough: a live member), two "
+             "members run out of 28 GB (tier `deep`); live-bar count and position argument are concrete per harness instance (Vec::insert at a symbolic index "
              "exhausts memory); thread interleavings are not explored (Kani has no thread model): that every frame shows a state each bar really had rests on "
              "the single RwLock write guard, whose discipline is C08's subject.",
         ref="4/C02, 8.4"),
@@ -104,10 +106,13 @@ CLAIMS = {
         text="Engine M shows on the MIR of the current tree that every control-flow path of MultiState::draw and BarState::draw that returns without reaching "
              "Drawable::draw / draw_to_term (rate-limited or hidden draw) writes no field of self and hands no mutable borrow of a field to any callee other than "
              "the limiter query, so skipped draws cannot move zombie_lines_count / last_line_count / orphan lines (all histories, all limiter verdicts). The exact "
-             "erase range of a painting draw and the rule that text lines are never counted are the C01/C19 inductive step.",
-        note="Both registered tiers = the frame condition only. The MultiState-level Kani harnesses need MultiState::draw end to end; CBMC's symbolic execution "
-             "of it did not finish within an hour, they are kept in the unregistered tier `deep` (bin/check C03 --tier deep). What a painting multi draw does to the "
-             "screen is therefore NOT decided for this property beyond the draw_to_term step of C01/C19.",
+             "erase range of a painting draw and the rule that text lines are never counted are the C01/C19 inductive step. Kani step harnesses on the "
+             "draw_to_term contract: MultiState::clear wipes the live frame AND the kept rows of finished bars and no log row from any accounting state; "
+             "MultiState::suspend runs the user's closure on a screen showing only the log and then requests exactly one forced redraw from zeroed counters; "
+             "DrawStateWrapper::drop moves every printed line (Text and Empty) of a member to the orphan lines, in order, and keeps the bar lines.",
+        note="MultiState::draw end to end fits into CBMC only for one member and a refused draw (quick: a refused ordinary draw changes nothing, semantically); a "
+             "println draw with one member and everything with two members run out of 28 GB (21 + 1 harnesses in the unregistered tier `deep`). What a painting "
+             "multi draw does to the screen is therefore NOT decided for this property beyond the pieces listed and the draw_to_term step of C01/C19.",
         ref="4/C03, 8.2"),
     "C04": dict(
         technique=K,
